@@ -119,13 +119,17 @@ def isUrlAllowed (b : Backend) (scheme : String) : Bool :=
 def entryMatches (scheme str : String) (b : Backend) : Bool :=
   isUrlAllowed b scheme && (b.url = "" || hasPrefix b.url str)
 
-/-- `BackendConfiguration.GetBackend` → `backendStorageStatic.GetBackend` → `getBackendLocked`. -/
-def getBackend (cfg : Cfg) (u : Url) : Option Backend :=
-  if lookupRejectsDotSegments && u.dotSeg then none else
+/-- `BackendConfiguration.GetBackend` → `backendStorageStatic.GetBackend` → `getBackendLocked`;
+`rejectDots`: whether `GetBackend` refuses URLs with dot segments (generated fact, see `getBackend`). -/
+def getBackendWith (rejectDots : Bool) (cfg : Cfg) (u : Url) : Option Backend :=
+  if rejectDots && u.dotSeg then none else
   let (host, s) := u.norm
   match cfg.hosts.lookup host with
   | none => cfg.allowAll
   | some entries => entries.find? (entryMatches u.scheme (withSlash s))
+
+/-- the lookup as the current source does it -/
+def getBackend (cfg : Cfg) (u : Url) : Option Backend := getBackendWith lookupRejectsDotSegments cfg u
 
 /-! ## protocol-2.0 tokens -/
 
